@@ -118,6 +118,16 @@ def explore(chk):
                 bad = "Scenarist_SCC V1.0\n\n00:00:01:00\t94ae 9420 9440 " + " ".join(["c1c2"] * 17) + " 942f\n\n00:00:04:00\t942c\n"
                 docs.append(("scc", bad))
                 ops += [("read", len(docs) - 1, True), ("read", len(docs) - 3, True)]
+        if h % 5 == 4:
+            # hand-written SAMI: paragraphs with inline styles (alignment, colour), the document ending in a blank paragraph
+            # that carries an inline style of its own; then a plain document on the same reader object
+            def sami(word, styled_blank):
+                blank_attr = ' style="text-align:%s;"' % rng.choice(["right", "center", "left"]) if styled_blank else ""
+                return ('<SAMI><HEAD><STYLE TYPE="text/css"><!--\nP { font-family: Arial; }\n.ENCC { Name: English; lang: en-US; }\n--></STYLE></HEAD><BODY>\n'
+                        '<SYNC start=1000><P Class=ENCC style="color:yellow;">%s one</P></SYNC>\n<SYNC start=2500><P Class=ENCC%s>&nbsp;</P></SYNC>\n'
+                        '<SYNC start=3000><P Class=ENCC>%s two</P></SYNC>\n<SYNC start=4500><P Class=ENCC%s>&nbsp;</P></SYNC>\n</BODY></SAMI>\n') % (word, blank_attr, word, blank_attr)
+            docs += [("sami", sami("styled", True)), ("sami", sami("plain", False))]
+            ops += [("read", len(docs) - 2, True), ("read", len(docs) - 1, True), ("read", len(docs) - 2, True)]
         # constructor options of the reader objects of this history (one object per format when reused)
         init = {}
         if rng.random() < 0.4 or h % 5 == 3:
